@@ -96,6 +96,9 @@ func ParseSMTString(s string) (string, bool) {
 }
 
 func (st *State) evalTerm(t *Term) interface{} {
+	if t.Sort.K == KStr && t.BS != nil && !t.Const {
+		return st.evalBStr(t.BS)
+	}
 	if t.Const {
 		switch t.Sort.K {
 		case KBool:
